@@ -18,6 +18,7 @@ import (
 	"github.com/go-kid/ioc/app"
 	"github.com/go-kid/ioc/configure"
 	"github.com/go-kid/ioc/configure/loader"
+	"github.com/go-kid/ioc/container"
 	"github.com/go-kid/ioc/container/factory"
 	"github.com/go-kid/ioc/container/support"
 	"github.com/go-kid/ioc/definition"
@@ -31,7 +32,8 @@ import (
 
 // Binding gives access to the generated types of the batch.
 type Binding struct {
-	Types map[string]reflect.Type
+	Types  map[string]reflect.Type
+	Ifaces map[string]reflect.Type
 	// Lin gives access to the instrumented copies of the concurrent utilities (linsim).
 	Lin *LinBinding
 }
@@ -778,6 +780,47 @@ func (e *env) main(inClose, closeReturned *bool) {
 		return lo
 	}
 
+	// logger-tagged fields
+	for _, inst := range p.Instances {
+		t := p.TypeByName(inst.Type)
+		if !t.Logger {
+			continue
+		}
+		if obs.LoggerSet == nil {
+			obs.LoggerSet = map[string]bool{}
+		}
+		f := fieldAt(e.objs[inst.ID], t.Name, t.LogEmbed, "Log")
+		obs.LoggerSet[inst.ID] = f.IsValid() && !f.IsNil()
+	}
+	if obs.Panic == "" && !obs.RunErr && spec.Lookups && e.bind.Ifaces != nil && !ctx.OverBudget {
+		// lookups by interface through the factory's query API
+		obs.ByIface = map[string][]string{}
+		obs.ByIfaceErr = map[string]bool{}
+		for k := 0; k < p.NIfaces; k++ {
+			name := gen.IfaceName(p, k)
+			it, ok := e.bind.Ifaces[name]
+			if !ok {
+				continue
+			}
+			func() {
+				defer func() {
+					if r := recover(); r != nil {
+						obs.ByIfaceErr[name] = true
+					}
+				}()
+				cs, err := a.GetComponents(container.InterfaceType(it))
+				if err != nil {
+					obs.ByIfaceErr[name] = true
+					return
+				}
+				ids := []string{}
+				for _, c := range cs {
+					ids = append(ids, e.idOf(reflect.ValueOf(c)))
+				}
+				obs.ByIface[name] = ids
+			}()
+		}
+	}
 	if obs.Panic == "" && !obs.RunErr && spec.Lookups {
 		obs.Lookup = map[string]model.LookupObs{}
 		for _, inst := range p.Instances {
